@@ -88,9 +88,19 @@ def showWire (i fam : Nat) (ds : List Dgram) : List String :=
       let f := if d.dest = 0 then fam else if d.dest = 1 then 4 else 6
       (if n = 0 then s!" ?/0@{f}" else s!" {d.seq}/{n}@{f}"))]
 
+/-- failed system calls: which datagram was first in the vector, which errno -/
+def showErrs (i : Nat) (calls : List KCall) : List String :=
+  calls.filterMap fun c =>
+    if c.res < 0 then
+      match c.offered.head? with
+      | some d => some (if d.bytes = 0 then s!"h{i} oserr r? {-c.res}" else s!"h{i} oserr r{d.seq} {-c.res}")
+      | none => none
+    else none
+
 /-- lines produced by handle i going from state a to state b -/
 def delta (i : Nat) (fam : Nat) (a b : H) : List String :=
-  (b.trace.drop a.trace.length).map (showEv i) ++ showWire i fam (b.wire.drop a.wire.length)
+  (b.trace.drop a.trace.length).map (showEv i) ++ showErrs i (b.klog.drop a.klog.length)
+    ++ showWire i fam (b.wire.drop a.wire.length)
 
 def obs (st : St) : String :=
   let reqs := st.socks.foldl (fun acc k => acc + k.h.activeReqs) (0 : Int)
